@@ -35,10 +35,15 @@ def count(name):
     CALLS[name] = CALLS.get(name, 0) + 1
 
 
+class Bare(HasTraits):
+    """Lacks `value`: hooking it makes the observers' maintainer raise - after the list was already changed."""
+    other = Int
+
+
 class P(HasTraits):
     a = Int
     child = Instance(Child)
-    children = List(Instance(Child))
+    children = List(Instance(HasTraits))
     table = Dict(Str, Instance(Child))
     group = Set(Instance(Child))
     p_a = Property(Int, observe="a")
@@ -67,10 +72,10 @@ class P(HasTraits):
     @cached_property
     def _get_c_list(self):
         count("c_list")
-        return [c.value for c in self.children]
+        return [getattr(c, "value", -1) for c in self.children]
 
     def _get_u_list(self):
-        return [c.value for c in self.children]
+        return [getattr(c, "value", -1) for c in self.children]
 
     @cached_property
     def _get_c_table(self):
@@ -92,6 +97,11 @@ class P(HasTraits):
         count("c_multi")
         return (self.a, None if self.child is None else self.child.value, len(self.children))
 
+    def _a_changed(self):
+        # a static handler that READS a cached property: during unpickling it runs while the object is half restored
+        self.c_multi
+        self.c_list
+
     def _c_list_changed(self, new):
         STATIC.append(("c_list", new))
 
@@ -108,7 +118,7 @@ WITH_STATIC = ("c_list", "c_child", "c_nested")
 
 def recompute(o):
     return {"p_a": o.a * 2, "c_a": o.a * 2, "c_child": None if o.child is None else o.child.value,
-            "c_list": [c.value for c in o.children], "u_list": [c.value for c in o.children],
+            "c_list": [getattr(c, "value", -1) for c in o.children], "u_list": [getattr(c, "value", -1) for c in o.children],
             "c_table": sorted((k, c.value) for k, c in o.table.items()), "c_group": sorted(c.value for c in o.group),
             "c_nested": None if o.child is None else [c.value for c in o.child.children],
             "c_multi": (o.a, None if o.child is None else o.child.value, len(o.children))}
@@ -130,6 +140,7 @@ OP = st.one_of(
     st.tuples(st.just("slice_mult"), st.integers(0, 2), st.integers(0, 3), st.integers(0, 3)),
     st.tuples(st.just("slice_mult"), st.integers(0, 2), st.integers(0, 3), st.integers(0, 3)),
     st.tuples(st.just("reverse")),
+    st.tuples(st.just("append_bare")),
     st.tuples(st.just("table_set"), st.sampled_from("ab"), I4), st.tuples(st.just("table_pop"), st.sampled_from("ab")),
     st.tuples(st.just("table_update"), st.lists(st.tuples(st.sampled_from("abc"), I4).map(list), max_size=3)),
     st.tuples(st.just("group_add"), I4), st.tuples(st.just("group_discard"), I4),
@@ -266,6 +277,28 @@ def run(case, ctx):
                     removed_once.add(id(x))
         elif k == "reverse":
             o.children.reverse()
+        elif k == "append_bare":
+            # the observers raise (no trait `value`) - after the list has changed; properties must still not be stale
+            try:
+                o.children.append(Bare())
+            except ValueError:
+                ctx.label("maintainer-raised")
+            # keep later steps well-defined: take the bare item out again (its removal may raise for the same reason)
+            after_bad = recompute(o)
+            for p_ in ("c_list", "u_list"):
+                if getattr(o, p_) != after_bad[p_]:
+                    ctx.fail("stale/after-failing-maintainer", "%s reads %r after appending an item the observers reject, "
+                             "recomputation gives %r" % (p_, getattr(o, p_), after_bad[p_]))
+            try:
+                o.children.pop()
+            except Exception:
+                pass
+            now = recompute(o)
+            for p_ in PROPS:
+                if getattr(o, p_) != now[p_]:
+                    ctx.fail("stale/after-failing-maintainer", "%s reads %r after removing the rejected item again, recomputation %r"
+                             % (p_, getattr(o, p_), now[p_]))
+            continue          # (two changes happened inside this step: the per-change getter count does not apply)
         elif k == "table_set":
             o.table[op[1]] = pool[op[2] % n]
         elif k == "table_pop":
@@ -290,7 +323,10 @@ def run(case, ctx):
                 c.children.pop()
         after = recompute(o)
         for p, cnt in CALLS.items():
-            if cnt > 1:
+            # (the static _a_changed handler reads c_multi / c_list in the middle of the notification of `a`, possibly
+            #  before the invalidating observer has run: one extra computation there is not a second run "between changes")
+            allowed = 2 if (k == "set_a" and p in ("c_multi", "c_list")) else 1
+            if cnt > allowed:
                 ctx.fail("cache/getter-ran-again", "getter of %s ran %d times during one change: %s" % (p, cnt, what))
         for p in PROPS:
             got = getattr(o, p)
